@@ -226,7 +226,7 @@ def run(argv, env=None, stdin=None, timeout=WATCHDOG, rlimits=None, ignore_sigxf
                 return Proc(None, dec(out), dec(err), True, time.time() - t0)
 
 
-def run_suspended(argv, env, event_log, pauses=(10.4,), marker='"ev":"deliver"', every=300, timeout=WATCHDOG, cwd=None, while_stopped=None):
+def run_suspended(argv, env, event_log, pauses=(10.4,), marker='"ev":"deliver"', every=300, timeout=WATCHDOG, cwd=None, while_stopped=None, send_signal=None):
     """Runs the process and suspends it (SIGSTOP ... SIGCONT, what ^Z / a laptop lid / a frozen cgroup do to a long job) once the hook
     event log shows that blocks are being delivered; further pauses follow after `every` more events. Wall-clock time passes for the
     process while it does nothing, so code that depends on elapsed time (the progress report every 10 s) runs. Returns (Proc, pauses
@@ -262,9 +262,15 @@ def run_suspended(argv, env, event_log, pauses=(10.4,), marker='"ev":"deliver"',
             if while_stopped:
                 time.sleep(0.02)          # let the stop take effect before the surroundings change
                 while_stopped()
+            was_alive = p.poll() is None
+            if send_signal and was_alive:
+                os.kill(p.pid, send_signal)      # delivered at the latest when the process continues
             time.sleep(pause)
-            alive = p.poll() is None
-            os.kill(p.pid, signal.SIGCONT)
+            alive = (p.poll() is None) or bool(send_signal and was_alive)
+            try:
+                os.kill(p.pid, signal.SIGCONT)
+            except ProcessLookupError:
+                pass                              # the signal has already ended it
             if alive:
                 hit += 1
         try:
